@@ -11,7 +11,7 @@ CONSTANTS
   PowOn = TRUE
   Families = {"admit"}
   RateCmds = {}
-  MaxHist = 4
+  MaxHist = 99
   CheckLemma = FALSE
   DevStopUnchecked = FALSE
   DevFetchOutUnchecked = FALSE
